@@ -80,6 +80,30 @@ def _run(hist_name, progs, clients=1, names=None):
     return w
 
 
+def _same_name_chunk(args):
+    """two strategies carrying the SAME name (flumine only warns about it) are still two strategies: each one's
+    ledger equals its ledger alone, in either registration order"""
+    hist_name, ai, bis = args
+    progs = programs(False)
+    A = progs[ai]
+    out = []
+    counts = {"clause:C13.a": 0, "same_name_pairs": 0}
+    w0 = _run(hist_name, [A], names=["S"])
+    base = ledger(w0.strategies[0], w0)
+    for bi in bis:
+        B = progs[bi]
+        for order in ("AB", "BA"):
+            ps = [A, B] if order == "AB" else [B, A]
+            w = _run(hist_name, ps, names=["S", "S"])
+            counts["clause:C13.a"] += 1
+            counts["same_name_pairs"] += 1
+            sa = w.strategies[0] if order == "AB" else w.strategies[1]
+            got = ledger(sa, w)
+            if w.run_exception is not None or got != base:
+                out.append(core.v("C13.a", ("process_market_book", "none", "ledger same-name"), "history %s order %s: ledger of a strategy differs alone vs next to another strategy with the same name\nA=%s\nB=%s\nalone=%s\nwith =%s" % (hist_name, order, A, B, base, got), dict(same_name=[hist_name, ai, bi])))
+    return dict(violations=_dedup(out), counts=counts, outcomes=[])
+
+
 _AIO = None
 
 
@@ -403,6 +427,19 @@ def _live_fault_one(args):
         seen = {s.name: [] for s in w.strategies}
         n_calls = {"n": 0}
         fired = {"f": False}
+        from flumine.markets.middleware import Middleware
+
+        class Stamp(Middleware):
+            def __call__(self, market):
+                market.context["verif_stamp"] = market.market_book.publish_time_epoch
+
+        fw.add_market_middleware(Stamp())
+        unordered = []
+
+        def stamped(market, mb, who, which):
+            counts["clause:C13.c"] = counts.get("clause:C13.c", 0) + 1
+            if market.context.get("verif_stamp") != mb.publish_time_epoch:
+                unordered.append((who, which, market.market_id))
 
         def maybe(name, which):
             if name == w.strategies[target].name and which == cb:
@@ -431,10 +468,12 @@ def _live_fault_one(args):
 
             def pmb(market, mb, st=st):
                 seen[st.name].append(("book", mb.publish_time_epoch))
+                stamped(market, mb, st.name, "process_market_book")
                 maybe(st.name, "process_market_book")
 
             def pnm(market, mb, st=st):
                 seen[st.name].append(("new", market.market_id))
+                stamped(market, mb, st.name, "process_new_market")
                 maybe(st.name, "process_new_market")
 
             st.process_raw_data, st.check_sports_data, st.process_sports_data = raw, chk_sd, sd_
@@ -479,6 +518,8 @@ def _live_fault_one(args):
         counts["clause:C13.d"] += 1
         if w.handler_exceptions:
             out.append(core.v("C13.d", key("exception escaped the dispatch loop"), w.handler_exceptions[0][-300:], case))
+        if unordered:
+            out.append(core.v("C13.c", key("ordering live"), "callback %s of strategy %s for market %s ran before the middleware of that update" % (unordered[0][1], unordered[0][0], unordered[0][2]), case))
         if customs != [0, 1, 2]:
             out.append(core.v("C13.b", key("custom events"), "custom event callbacks ran for %s" % customs, case))
         for i, st in enumerate(w.strategies):
@@ -523,6 +564,11 @@ def run(tier):
         rep.merge_counts(r["counts"])
         rep.outcomes.update(r["outcomes"])
         runs += 1 + 2 * len(j[2])
+    sj = [(hn, ai, list(range(0, n, 4))) for hn in ("H1", "H2") for ai in range(0, n, 4)]
+    for r in core.pmap(_same_name_chunk, sj, chunk=1):
+        rep.add_violations(r["violations"])
+        rep.merge_counts(r["counts"])
+        runs += r["counts"]["same_name_pairs"]
     oj = [(hn, lt, bn) for hn in HISTORIES for lt in (1, 2, 3, 4) for bn in ("PB", "PL", "P2")]
     for r in core.pmap(_orders_callback_one, oj):
         rep.add_violations(r["violations"])
@@ -581,6 +627,11 @@ def run(tier):
 
 def replay(rep):
     c = rep["case"]
+    if "same_name" in c:
+        r = _same_name_chunk((c["same_name"][0], c["same_name"][1], [c["same_name"][2]]))
+        for d in r["violations"]:
+            print(d["key"], d["detail"][:300])
+        return 1 if r["violations"] else 0
     if "orders_callback" in c:
         r = _orders_callback_one(tuple(c["orders_callback"]))
         for d in r["violations"]:
